@@ -165,6 +165,15 @@ def base_inputs(tier, seed):
         rng.shuffle(cfg_ex)
         cfg_ex = sorted(cfg_ex[:70], key=lambda x: x["label"])
     inputs += cfg_ex
+    # thorough: real-world C++ (classes, templates, lambdas): excerpts of cppcheck's own sources
+    if tier != "quick":
+        lib_ex = []
+        for p in sorted(glob.glob(os.path.join(repo, "lib", "*.cpp"))) + [os.path.join(repo, "externals", "simplecpp", "simplecpp.cpp")]:
+            base = os.path.basename(p)
+            for k, ex in enumerate(srcsplit.excerpts(_read(p), 60)):
+                lib_ex.append(_mk("lib/%s@%d" % (base, k), "lib", base, {base: ex}, []))
+        rng.shuffle(lib_ex)
+        inputs += sorted(lib_ex[:250], key=lambda x: x["label"])
     # multi-configuration files: the hand-written ones and excerpts whose functions are wrapped into conditionals
     for name, text in sorted(IFDEF_FILES.items()):
         inputs.append(_mk("ifdef/" + name, "ifdef", name, {name: text}, []))
@@ -187,6 +196,44 @@ def base_inputs(tier, seed):
                 out.append(s if s.endswith("\n") else s + "\n")
         inputs.append(_mk("ifdef/%s~%d" % (src["label"], k), "ifdef", src["main"], {src["main"]: "".join(out)}, src["args"]))
     return inputs
+
+
+def gen_exprs(rng, depth):
+    ops = ["+", "-", "*", "/", "%", "<<", ">>", "<", "<=", "==", "!=", "&", "^", "|", "&&", "||"]
+    if depth == 0:
+        return rng.choice(["a", "b", "c", "1", "2u", "'x'", "p[a]", "s.m", "q->m", "*p", "f(a)", "f(a, b)", "sizeof(int)", "sizeof a", "\"str\"[1]"])
+    r = rng.random()
+    if r < 0.5:
+        return "%s %s %s" % (gen_exprs(rng, depth - 1), rng.choice(ops), gen_exprs(rng, depth - 1))
+    if r < 0.6:
+        return "%s(%s)" % (rng.choice(["-", "!", "~", "(int)", "(long)", "sizeof"]), gen_exprs(rng, depth - 1))
+    if r < 0.7:
+        return "f(%s, %s)" % (gen_exprs(rng, depth - 1), gen_exprs(rng, depth - 1))
+    if r < 0.8:
+        return "(%s) ? %s : %s" % (gen_exprs(rng, depth - 1), gen_exprs(rng, depth - 1), gen_exprs(rng, depth - 1))
+    if r < 0.9:
+        return "p[%s]" % gen_exprs(rng, depth - 1)
+    return "(%s, %s)" % (gen_exprs(rng, depth - 1), gen_exprs(rng, depth - 1))
+
+
+def generated_programs(tier, seed):
+    """Small generated programs (expression statements, branches, loops) in C and C++."""
+    rng = random.Random(seed * 31 + 5)
+    res = []
+    for k in range(10 if tier == "quick" else 120):
+        cpp = k % 2 == 1
+        lines = ["struct S { int m; };", "int f(...);" if cpp else "int f();",
+                 "int g(int a, int b, int c, int *p, struct S s, struct S *q)", "{", "  int x = 0;"]
+        for _ in range(rng.randint(8, 25)):
+            e = gen_exprs(rng, rng.randint(1, 3))
+            form = rng.choice(["x = %s;", "x += %s;", "if (%s) { x++; } else { x--; }", "while (%s) { if (x) break; x = a; }",
+                               "for (int i = 0; i < (%s); i++) { p[i] = x; }", "switch (%s) { case 1: x = 1; break; default: x = 2; }",
+                               "do { x = b; } while (%s);", "return %s;", "{ int z = %s; x = z; }"])
+            lines.append("  " + form % e)
+        lines += ["  return x;", "}"]
+        name = "gen%d.%s" % (k, "cpp" if cpp else "c")
+        res.append(_mk("gen/" + name, "gen", name, {name: "\n".join(lines) + "\n"}, []))
+    return res
 
 
 def mutants(inputs, tier, seed):
@@ -380,7 +427,7 @@ def main(tier, seed, replay=None):
     if replay:
         return do_replay(replay)
     max_tokens = 1500 if tier == "quick" else 4000
-    inputs = base_inputs(tier, seed)
+    inputs = base_inputs(tier, seed) + generated_programs(tier, seed)
     inputs += mutants(inputs, tier, seed)
     m, bad, by_name = explore(inputs, max_tokens)
 
@@ -404,8 +451,8 @@ def main(tier, seed, replay=None):
         "evaluations": m["judged"], "distinct_nontrivial": len(m["shapes"]),
         "rule": "one evaluation = one <dump cfg> (or one dump file without configuration) judged by TLC against all DumpInv invariants + SameGraph; "
                 "distinct = different canonical token/link/AST/varId structure (ids replaced by positions); non-trivial = has at least one bracket "
-                "link and one AST edge. Inputs: all samples, all test/cli sources, excerpts of test/cfg (quick: seeded sample; thorough: all), "
-                "multi-#ifdef files, seeded token-level mutants",
+                "link and one AST edge. Inputs: all samples, all test/cli sources, excerpts of test/cfg (quick: seeded sample; thorough: all + 250 excerpts of lib/*.cpp), "
+                "multi-#ifdef files, generated expression/statement programs, seeded token-level mutants",
         "samples": m["samples"], "exhaustive": False,
         "inputs": len(inputs), "run_status": m["status"], "per_stratum": per_stratum,
         "dump_files_without_cfg": m["nocfg"], "cfgs_skipped_over_token_cap": m["skipped"], "token_cap": max_tokens,
